@@ -505,7 +505,7 @@ class BasicReadAssignment:
                     self.chr_id == other.chr_id and
                     self.start == other.start and
                     self.end == other.end and
-                    self.isoforms == other.isoforms)
+                    set(self.isoforms) == set(other.isoforms))
         return False
 
     def __getstate__(self):
